@@ -143,7 +143,7 @@ class C40(Property):
                 h = 1
             modes.append([h, k, rng.uniform(0.2, 2.0), rng.uniform(0, 6.28)])
         return {"kind": "grad", "gpts": [nx, ny], "sampling": [rng.choice([0.1, 0.2, 0.37]), rng.choice([0.1, 0.2, 0.37])], "modes": modes,
-                "const": rng.uniform(-3, 3), "lazy": rng.random() < 0.2}
+                "const": rng.uniform(-3, 3), "lazy": rng.random() < 0.35}
 
     def oracle(self, ctx: Ctx, c):
         import abtem
@@ -167,6 +167,7 @@ class C40(Property):
             s = d.angular_sampling if c["units"] == "mrad" else d.sampling
             kx, ky = fx[p[0]] * s[0], fy[p[1]] * s[1]
             scale = max(abs(kx), abs(ky), s[0], s[1])
+            ok_known = True
             first_moment = c["weight"] * complex(kx, ky)
             if abs(got - first_moment) > 1e-5 * scale * max(1.0, c["weight"]):
                 key = "com-unshifted-coordinates" if not c["shifted"] else "com-shifted-coordinates"
@@ -175,7 +176,7 @@ class C40(Property):
             if abs(got - complex(kx, ky)) > 1e-5 * scale * max(1.0, c["weight"]):
                 # the property's own wording: COM of a single bright pixel is that pixel's frequency, whatever its brightness
                 ctx.violation("com-not-normalised-by-total-intensity", c, {"observed": [got.real, got.imag], "pixel_frequency": [kx, ky], "weight": c["weight"]})
-                return False
+                ok_known = False  # recorded; the random-pattern first-moment check below still runs
             # (2) random pattern: first moment against an independent double loop
             rng = np.random.default_rng(c["seed"])
             b = rng.random((1, 1, nx, ny))
@@ -187,12 +188,15 @@ class C40(Property):
                 ctx.violation("com-first-moment", c, {"observed": [got.real, got.imag], "expected": [ex, ey]})
                 return False
             ctx.count(f"conf-com:{c['units']}:shifted={c['shifted']}:weight={'1' if c['weight'] == 1.0 else 'other'}")
-            return True
+            return ok_known
         # gradient integration
         phi, gx, gy = make_field(c)
-        im = Images((gx + 1j * gy).astype(np.complex128), sampling=tuple(c["sampling"]))
+        g = (gx + 1j * gy).astype(np.complex128)
         if c.get("lazy"):
-            im = im.ensure_lazy()
+            import dask.array as da
+            # several blocks along BOTH image axes: integrate_gradient must gather whole images before the FFT
+            g = da.from_array(g, chunks=(max(2, g.shape[0] // 2), max(2, g.shape[1] // 3)))
+        im = Images(g, sampling=tuple(c["sampling"]))
         out = im.integrate_gradient()
         T = np.asarray(out.array.compute() if hasattr(out.array, "compute") else out.array)
         exp = phi - phi.min()
